@@ -159,6 +159,9 @@ def random_layout(rng, depth=3, maxfiles=10, comps=COMPS, odd=0.15, links=True, 
         d = rng.choice([x for x in L.dirs if not (x == t or x.startswith(t + '/'))
                         and not (t.startswith(x + '/') and False)])
         p = ('dl' if d == '' else d + '/dl')
+        if rng.random() < 0.5:
+            # an alias next to its target whose name begins with the target's name (pkg -> pkg-compat)
+            p = t + '-compat'
         # only links to directories that are not ancestors of the link (no loops here; C16 does loops)
         if not (p.startswith(t + '/')) and p not in L.dirs and p not in L.files \
                 and not any(part.startswith('.') for part in t.split('/')):
